@@ -109,9 +109,15 @@ def cases(sh, tier):
                 yield {"a": s, "p": p, "axis": p, "new": new, "nm": name, "lr": lr, "issorted": None, "form": "nd", "again": "relabel_inplace"}
         yield {"a": s, "p": p, "axis": NAMES[p], "new": new, "nm": name, "lr": None, "issorted": None, "form": "like"}
         if s["vk"] == "f" and name in ("identity", "nodes_rev", "dup", "sorted_all", "unsorted"):
-            # an infinite value in the data: exact at its own node, fills outside, (cells strictly between nodes of that fibre are not compared)
+            # an infinite value in the data: exact at its own node, fills outside, numpy.interp's answer between nodes
             yield {"a": s, "p": p, "axis": NAMES[p], "new": new, "nm": name, "lr": None, "issorted": None, "form": "list", "inf": 2}
             yield {"a": s, "p": p, "axis": p, "new": new, "nm": name, "lr": [-1.0, -2.0], "issorted": None, "form": "list", "inf": 0}
+            yield {"a": s, "p": p, "axis": p, "new": new, "nm": name, "lr": None, "issorted": None, "form": "list", "inf": 5}
+    # narrow data types: unsigned 8-bit integers (a decreasing step does not fit the type), single precision (the result is numpy.interp's,
+    # i.e. computed in double precision)
+    alt = dict(s, vk="u1") if s["vk"] == "i" else dict(s, vk="f4")
+    for name, new in _newvecs(sh["lab"], sh["kind"]).items():
+        yield {"a": alt, "p": p, "axis": NAMES[p], "new": new, "nm": name, "lr": None, "issorted": None, "form": "list"}
 
 
 def _ds_cases(j):
@@ -156,8 +162,8 @@ def ref_interp(ra, p, new, left, right):
                 pos[i] = opos[jj]
             pos[p] = r
             out[tuple(pos)] = v
-            if hasinf and len(xp) and xp[0] < new[r] < xp[-1] and float(new[r]) not in [float(x) for x in xp]:
-                UNPINNED.append(tuple(pos))     # between two nodes of a fibre holding an infinite value: inf - inf arithmetic, not pinned down
+            # (between two nodes of a fibre holding an infinite value the result is numpy.interp's, as everywhere: the statement names it, and
+            # the 1-D variant calls it - earlier versions of this check left those cells unpinned)
     labels = list(ra.labels)
     labels[p] = list(new)
     return R.RA(ra.dims, labels, out, ra.attrs)
